@@ -360,6 +360,28 @@ pub fn typed_api_checks(prop: &str, a: &Args, st: &mut Stats) {
             }
         } }
     }
+    // IS_BTN with a type-in caption: Text = NUL caption NUL text (InSim.txt), TypeIn = maximum characters + 128 to initialise the dialog
+    // with the text.  Whatever TypeIn is and whatever the lengths are, the frame is 12 + the text NUL-padded to a multiple of 4 (at most 240)
+    {
+        use insim::insim::Btn;
+        for typein in [0u8, 1, 31, 95, 127, 128, 129, 223, 255] { for cap in [0usize, 1, 2, 3, 5] { for tl in [0usize, 1, 2, 3, 4, 5, 6, 7, 8, 120, 230, 233, 234, 235, 236, 237, 238, 239, 240, 250] {
+            let text = if cap == 0 { "t".repeat(tl) } else { format!("\0{}\0{}", "c".repeat(cap - 1), "t".repeat(tl)) };
+            let mut b = Btn::default(); b.reqi = RequestId(1); b.typein = typein; b.text = text.clone(); b.w = 10; b.h = 5;
+            for compressed in [true, false] {
+                st.evaluations += 1;
+                let id = format!("btn {} {typein} {cap} {tl}", mode_tag(compressed));
+                let n = text.len();
+                match encode_p(compressed, &Packet::Btn(b.clone())) {
+                    Enc::Ok(f) => {
+                        if let Some(w) = wellformed(compressed, &f, 45) { st.fail(format!("[{prop}] IS_BTN with TypeIn {typein} and a {n}-byte text (caption {cap}): {w}"), id.clone()); }
+                        else { let want = 12 + ((n + 3) / 4 * 4).min(240); if f.len() != want { st.fail(format!("[{prop}] IS_BTN with TypeIn {typein} and a {n}-byte text (caption {cap}) is {} bytes, expected {want}", f.len()), id.clone()); } }
+                    },
+                    Enc::Err => {},
+                    Enc::Panic => st.fail(format!("[{prop}] IS_BTN with TypeIn {typein} and a {n}-byte text (caption {cap}) makes the encoder panic"), id.clone()),
+                }
+            }
+        } } }
+    }
     // IS_MSO built by hand with a player-name prefix (textstart > 0) whose encoded length differs from its UTF-8 length: the message field
     // is the encoded message NUL-padded to a multiple of 4 and cut at 128 bytes, TextStart is the ENCODED length of the name
     {
@@ -377,6 +399,12 @@ pub fn typed_api_checks(prop: &str, a: &Args, st: &mut Stats) {
                         if let Some(w) = wellformed(compressed, &b, 11) { st.fail(format!("[{prop}] IS_MSO with a {}-byte name and {tl} bytes of text: {w}", name.len()), id.clone()); }
                         if b.len() > 136 { st.fail(format!("[{prop}] IS_MSO with a {}-byte name and {tl} bytes of text: the message occupies {} bytes, more than its maximum 128", name.len(), b.len() - 8), id.clone()); }
                         else if b[8..] != want[..] { st.fail(format!("[{prop}] IS_MSO with a {}-byte name and {tl} bytes of text: the message field holds {} but the encoded message padded and cut is {}", name.len(), hex(&b[8..]), hex(&want)), id.clone()); }
+                        // ... and read back: the message is the whole text field up to its first NUL, however long the name in front of the text is
+                        if b.len() >= 8 { match decode_buf(compressed, &b) {
+                            Dec::Got(Packet::Mso(m2), _) => { let field = &b[8..]; let end = field.iter().position(|x| *x == 0).unwrap_or(field.len()); let want_msg = insim_core::string::codepages::to_lossy_string(&field[..end]).to_string();
+                                if m2.msg != want_msg { st.fail(format!("[{prop}] IS_MSO with a {}-byte name and {tl} bytes of text reads back as a {}-byte message, the text field holds {} bytes: ...{:?} instead of ...{:?}", name.len(), m2.msg.len(), want_msg.len(), m2.msg.chars().rev().take(8).collect::<String>().chars().rev().collect::<String>(), want_msg.chars().rev().take(8).collect::<String>().chars().rev().collect::<String>()), id.clone()); } },
+                            d => st.fail(format!("[{prop}] the IS_MSO just encoded does not decode: {}", cls_string(&d)), id.clone()),
+                        } }
                         if b.len() >= 8 && b[7] as usize != to_lossy_bytes(name).len() { st.fail(format!("[{prop}] IS_MSO TextStart is {} but the encoded name is {} bytes", b[7], to_lossy_bytes(name).len()), id.clone()); }
                     },
                     Enc::Err => st.fail(format!("[{prop}] IS_MSO with a {}-byte name and {tl} bytes of text is refused", name.len()), id.clone()),
